@@ -53,6 +53,8 @@ type Contract struct {
 	Panics   []Clause // exceptional postconditions: condition (over old state) under which a panic is permitted
 	Modifies []Clause
 	ModAll   bool
+	Handler  bool // deferred recover handler: recover() yields an arbitrary value
+	RecoverBy string // callee key of the deferred recover handler: runtime panics after its Defer are converted to errors
 	Pure     bool // declared to modify no pre-existing heap location (checked)
 	NoReturn bool
 	Loops    map[int]*LoopSpec
@@ -441,6 +443,10 @@ func (sp *Specs) loadSpecFile(path, pkgPath string) error {
 			cur.ParamNames = strings.Fields(strings.ReplaceAll(rest, ",", " "))
 		case "like":
 			cur.Like = rest
+		case "handler":
+			cur.Handler = true
+		case "recoverby":
+			cur.RecoverBy = rest
 		case "pure":
 			cur.Pure = true
 		case "noreturn":
